@@ -19,7 +19,8 @@ EXTENDS ClocRef, Json
 CONSTANTS Shape,         \* "bydir2" | "bydir3" | "bydir2w" | "top2q" | "top2" | "top3": which input family is enumerated
           Roots,         \* set of DIR spellings
           ExtFilters,    \* set of include-ext lists, by name: "none" | "java" | "go" | "kt"
-          Tops           \* set of --top-size values
+          Tops,          \* set of --top-size values
+          Stride         \* emit every Stride-th explored input as a replay case (1 = all)
 
 VARIABLES input,         \* the abstract input (JSON shape of ClocRef)
           pc, ret,       \* control: program point, and where `Run` returns to
@@ -403,6 +404,10 @@ TD == DiffTop(FullRoot, input, obs.top)
 C16_TopSortedTruncated == TopDone => \A x \in TD : CutsetTag \in x.tags
 C16_TopJsonExact == TopDone => DiffJson(FullRoot, input, obs.top) = {}
 
-\* generation: every explored input becomes a replay case for the real binary
-Emit == Finished => PrintT(<<"CASE", ToJson([input |-> input])>>)
+\* generation: explored inputs become replay cases for the real binary. One line per input (printed when
+\* the tree is complete, before the command starts); for the large families only every Stride-th input by
+\* a checksum of the tree (the suite plan samples further).
+Chk == SumSeq([i \in DOMAIN input.files |-> i * 7 + input.files[i].code * 3 + Len(input.files[i].dir)])
+       + 5 * Len(input.dirs) + input.top + Len(input.ext)
+Emit == (pc = "start" /\ Chk % Stride = 0) => PrintT(<<"CASE", ToJson([input |-> input])>>)
 =============================================================================
